@@ -133,8 +133,14 @@ structure State where
   injected : Nat := 0       -- objects the client created and handed to the pool (`inject`)
   deriving Inhabited
 
-def State.init (c : Cfg) : State :=
-  { slots := List.replicate c.cap {}, bufs := List.replicate c.nthreads [] }
+/-- the queue empty at the start of round `r0` (both ticket counters at `r0 · cap`, every slot push-ready for
+round `r0`): the state a freshly constructed allocator is in for `r0 = 0`, and the state the harness presets
+(through `-fno-access-control`) to start a run just below the wrap of the 16-bit slot version -/
+def State.initAt (c : Cfg) (r0 : Nat) : State :=
+  { pushIdx := r0 * c.cap, popIdx := r0 * c.cap,
+    slots := List.replicate c.cap { ver := Gen.Pages.pushVersionFactor * r0 }, bufs := List.replicate c.nthreads [] }
+
+def State.init (c : Cfg) : State := State.initAt c 0
 
 def State.setTh (s : State) (t : Tid) (th : Th) : State :=
   { s with th := fun u => if u = t then th else s.th u }
